@@ -76,6 +76,7 @@ BUILTIN_EXC = {
     "UnicodeDecodeError": "UnicodeError",
     "UnicodeEncodeError": "UnicodeError",
     # third-party classes that the code names; parents as in the libraries
+    "struct.error": "Exception",          # struct.error
     "ClientError": "Exception",           # botocore.exceptions.ClientError
     "BotoCoreError": "Exception",         # botocore.exceptions.BotoCoreError
     "JSONDecodeError": "ValueError",      # json.JSONDecodeError
@@ -134,7 +135,7 @@ class LoopSpec:
 
     def __init__(self, invariant: Callable = None, modifies: List[str] = None, havoc: Callable = None,
                  unroll: bool = False, name: str = "", decreases: Callable = None, skip: List[str] = None,
-                 on_exit: Callable = None, on_break: Callable = None):
+                 on_exit: Callable = None, on_break: Callable = None, covers: List[str] = None):
         self.invariant = invariant  # invariant(interp, env, it) -> list[(name, z3 bool)]
         self.modifies = modifies    # extra names to havoc (beyond syntactically assigned locals)
         self.havoc = havoc          # havoc(interp, env, it): custom havoc of heap/ghost state
@@ -144,6 +145,7 @@ class LoopSpec:
         self.skip = skip or []      # names the custom havoc takes care of
         self.on_exit = on_exit      # on_exit(interp, env, it): facts that hold when the loop completed (rule ALL-VISITED)
         self.on_break = on_break    # on_break(interp, env, it): the body left the loop early (break) in the arbitrary iteration
+        self.covers = covers or []  # object fields the custom havoc re-chooses even when the chosen value equals the old one (frame guard)
 
 
 class Registry:
@@ -270,6 +272,8 @@ class Interp:
     def external_value(self, full: str):
         if full in self.reg.modconsts:
             return self.reg.modconsts[full]
+        if full == "struct.error":
+            return ClassVal("struct.error", builtin_exc=True)
         last = full.split(".")[-1]
         if last in BUILTIN_EXC and (full.startswith("botocore") or full.startswith("pyarrow") or full.startswith("json")):
             return ClassVal(last, builtin_exc=True)
@@ -1869,6 +1873,37 @@ class Interp:
         raise Unsupported(f"cannot havoc loop variable {name} of kind {type(old).__name__}; "
                           f"give the loop spec a custom havoc")
 
+    # ---- frame guard for loops cut with a CUSTOM havoc: a field of an object in scope that the body changes must have been
+    # havocked by the spec (or restored by the body) - otherwise the arbitrary iteration started from a state no real iteration
+    # need start from.  Only plain attributes of SObj values bound to local names (e.g. self) are tracked.
+    def _frame_snapshot(self, env):
+        snap = {}
+        for nm, v in list(env.vars.items()):
+            if isinstance(v, SObj):
+                snap[nm] = (v, dict(v.fields))
+        return snap
+
+    def _frame_check(self, node, spec, it):
+        pre, post = it.get("__frame_pre__"), it.get("__frame_post__")
+        if not pre or not post:
+            return
+        for nm, (obj, before) in pre.items():
+            after_havoc = post.get(nm, (obj, {}))[1]
+            for fld, v0 in before.items():
+                if fld in getattr(spec, "covers", []):
+                    continue
+                v1 = after_havoc.get(fld, v0)
+                cur = obj.fields.get(fld, v1)
+                if v1 is not v0:
+                    continue                       # the spec's havoc took care of it
+                if cur is v1:
+                    continue                       # unchanged (or restored) by the body
+                if isinstance(cur, (bool, int, str, type(None))) and isinstance(v1, (bool, int, str, type(None))) and cur == v1 and type(cur) is type(v1):
+                    continue
+                self.ctx.check(f"loop{node.lineno}:{spec.name}:frame:{obj.cls}.{fld}-is-changed-by-the-body-but-neither-havocked-nor-covered-by-the-invariant",
+                               z3.BoolVal(False),
+                               detail=f"at the loop head the arbitrary iteration assumed {obj.cls}.{fld} = {v1!r}; an iteration ends with {cur!r}")
+
     def _cut_prelude(self, node, env, spec: LoopSpec, it):
         """assert invariant on entry; havoc; assume invariant."""
         for nm, inv in spec.invariant(self, env, it) if spec.invariant else []:
@@ -1883,7 +1918,9 @@ class Interp:
             if ok and nm in env.vars and nm not in spec.skip:
                 env.vars[nm] = self.havoc_value(old, nm)
         if spec.havoc:
+            it["__frame_pre__"] = self._frame_snapshot(env)
             spec.havoc(self, env, it)
+            it["__frame_post__"] = self._frame_snapshot(env)
         for nm, inv in spec.invariant(self, env, it) if spec.invariant else []:
             self.ctx.assume(inv)
 
@@ -1905,6 +1942,7 @@ class Interp:
         it["after_body"] = True
         for nm, inv in spec.invariant(self, env, it) if spec.invariant else []:
             self.ctx.check(f"loop{node.lineno}:{spec.name}:inv-preserved:{nm}", inv)
+        self._frame_check(node, spec, it)
         if dec0 is not None:
             dec1 = spec.decreases(self, env, it)
             self.ctx.check(f"loop{node.lineno}:{spec.name}:decreases", z3.And(dec1 >= 0, dec1 < dec0))
@@ -1983,7 +2021,9 @@ class Interp:
             if ok and nm in env.vars and nm not in spec.skip:
                 env.vars[nm] = self.havoc_value(old, nm)
         if spec.havoc:
+            it["__frame_pre__"] = self._frame_snapshot(env)
             spec.havoc(self, env, it)
+            it["__frame_post__"] = self._frame_snapshot(env)
         if "i" in it:
             i = c.fresh_int("it")
             lo = it.get("lo", z3.IntVal(0))
@@ -2090,6 +2130,7 @@ class Interp:
             it["done"] = z3.SetAdd(it["done"], it["elem"])
         for nm, inv in spec.invariant(self, env, it) if spec.invariant else []:
             c.check(f"loop{node.lineno}:{spec.name}:inv-preserved:{nm}", inv)
+        self._frame_check(node, spec, it)
         raise PathEnd()
 
 
